@@ -250,7 +250,7 @@ class Report:
                 "exhaustive": exhaustive and not self.internal_errors,
                 "explanation": self.explanation,
                 "bounds": jsonable(self.bounds),
-                "process_environment": {"python_optimize": bool(sys.flags.optimize), "TZ": os.environ.get("TZ"), "LC_ALL": os.environ.get("LC_ALL"), "PYTHONHASHSEED": os.environ.get("PYTHONHASHSEED")},
+                "process_environment": {"python_optimize": bool(sys.flags.optimize), "debug_logging": bool(os.environ.get("VERIF_HOSTILE")), "TZ": os.environ.get("TZ"), "LC_ALL": os.environ.get("LC_ALL"), "PYTHONHASHSEED": os.environ.get("PYTHONHASHSEED")},
                 "subchecks": subs,
                 "known_findings_seen": [r["sig"] for r, _ in viol_known],
                 "new_violation_signatures": [r["sig"] for r in viol_new],
